@@ -832,11 +832,13 @@ func chosencasesLoops(t *tr, pp, dec *packages.Package) string {
 		t.errs = append(t.errs, "(*Provider).runPreloaded not found")
 	} else {
 		b.WriteString(chosencasesSymLoop(t, pp, fd, false)) // round 4: symbolic execution (area_chosencases_symloops.go)
+		b.WriteString(chosencasesCtxBareDef(pp, fd, "runPreloaded"))
 	}
 	if fd := chosencasesMethod(pp, "Provider", "runFullScan"); fd == nil {
 		t.errs = append(t.errs, "(*Provider).runFullScan not found")
 	} else {
 		b.WriteString(chosencasesSymLoop(t, pp, fd, true))
+		b.WriteString(chosencasesCtxBareDef(pp, fd, "runFullScan"))
 		b.WriteString(chosencasesPassCounter(t, pp, dec))
 	}
 	if fd := chosencasesMethod(pp, "Provider", "Run"); fd == nil {
@@ -919,5 +921,7 @@ func chosencasesExtra(t *tr) string {
 	b.WriteString(chosencasesNewProvider(t))
 	b.WriteString(chosencasesEpilogue(t, pp)) // round 3: area_chosencases_fin.go
 	b.WriteString(chosencasesSourceGuards(t))
+	b.WriteString(chosencasesPreloadSites(t.pkg, pp, dec)) // round 6: area_chosencases_ctx.go
+	b.WriteString(chosencasesRelease(t, pp))
 	return b.String()
 }
